@@ -220,6 +220,14 @@ int vs_pthread_mutex_unlock(pthread_mutex_t* m)
   commit_hist(t, 0);
   event(t->id, "unlock", objs[o].name.c_str(), 0);
   t->op = OP_NONE;
+  if (cfg->yield_after_unlock) {
+    announce(t, OP_YIELD, -1);
+    t->label = "post-unlock";
+    schedule(t);
+    commit_hist(t, 0);
+    event(t->id, "yield", "post-unlock", 0);
+    t->op = OP_NONE;
+  }
   return 0;
 }
 
